@@ -621,6 +621,10 @@ def classify_diff(font, path, got, want):
             w = (g.get("image") or {}).get("fileName", "")
             if re.search(r"[\t\n\r]", w) and got == re.sub(r"[\t\n\r]", " ", w):
                 return "attr_whitespace"
+        if re.search(r"/transform\[[03]\]$", sub):
+            w, gt = _num(want), _num(got)
+            if w is not None and gt == 1.0 and w != 1.0 and abs(w - 1.0) <= EPS:
+                return "scale_near_one"
         m = re.match(r"^/advance\[([01])\]$", sub)
         if m:
             a = [_num(x) for x in g["advance"]]
